@@ -7,7 +7,9 @@ Definition othread := ((N * N) * (N * N) * bool * thread_json * list stack_key *
 
 (* observed per-thread tables: stringArray (content ids), resourceTable.lib / name, funcTable.name / resource, frameTable.func / address / nativeSymbol,
    nativeSymbols.libIndex / address / name *)
-Definition otables := (list N * list nat * list nat * list nat * list (option nat) * list nat * list (option N) * list (option nat) * list nat * list N * list nat)%type.
+Definition otables := (list N * list nat * list nat * list nat * list (option nat) * list nat * list (option N) * list (option nat) * list nat * list N * list nat *
+                        (list (option nat) * list (option N) * list (option N) * list N))%type.
+   (* ... and funcTable.fileName, frameTable.line / column / inlineDepth *)
 
 Record c03case := mkCase {
   cp_procs : list (N * N);                                   (* pid, start *)
@@ -44,22 +46,33 @@ Fixpoint listoN_eqb (a b : list (option N)) : bool :=
 
 (* GlobalLibTable::index_for_used_lib: libraries are numbered in the order of their first use by any thread *)
 Definition used_libs (reqs : list (nat * freq)) : list nat :=
-  fold_left (fun u r => match snd r with FNative lib _ _ _ => snd (intern Nat.eqb u lib) | FNativeSym lib _ _ _ _ => snd (intern Nat.eqb u lib) | _ => u end) reqs [].
+  fold_left (fun u r => match snd r with
+                        | FNative lib _ _ _ => snd (intern Nat.eqb u lib) | FNativeSym lib _ _ _ _ => snd (intern Nat.eqb u lib)
+                        | FNs lib _ _ => snd (intern Nat.eqb u lib)
+                        | FSymbolicated (Some (lib, _)) _ _ _ _ _ _ _ _ _ => snd (intern Nat.eqb u lib)
+                        | _ => u end) reqs [].
 Definition translate (used : list nat) (r : freq) : freq :=
   match r with
   | FNative lib rel h n => FNative (match index_of Nat.eqb lib used with Some i => i | None => 0%nat end) rel h n
   | FNativeSym lib rel a sn n => FNativeSym (match index_of Nat.eqb lib used with Some i => i | None => 0%nat end) rel a sn n
+  | FNs lib a sn => FNs (match index_of Nat.eqb lib used with Some i => i | None => 0%nat end) a sn
+  | FSymbolicated addr hx nslib nsaddr nm fl ln cl d ln2 =>
+      FSymbolicated (option_map (fun x => (match index_of Nat.eqb (fst x) used with Some i => i | None => 0%nat end, snd x)) addr) hx
+                    (match index_of Nat.eqb nslib used with Some i => i | None => 0%nat end) nsaddr nm fl ln cl d ln2
   | x => x
   end.
 Definition model_tables (reqs : list (nat * freq)) (h : nat) : otables :=
   let used := used_libs reqs in
   let t := run_reqs (map (fun r => translate used (snd r)) (filter (fun r => Nat.eqb (fst r) h) reqs)) in
-  (tt_strings t, tt_res_lib t, tt_res_name t, map fst (tt_funcs t), tt_func_res t, tt_frame_func t, map (fun k => option_map (fun x => snd (fst x)) (snd k)) (tt_frames t),
-   map (fun k => match snd k with Some (_, _, ns) => ns | None => None end) (tt_frames t), map fst (tt_ns t), map snd (tt_ns t), tt_ns_name t).
+  (tt_strings t, tt_res_lib t, tt_res_name t, map fu_name (tt_funcs t), tt_func_res t, tt_frame_func t, map (fun k => option_map ni_rel (fk_native k)) (tt_frames t),
+   map (fun k => match fk_native k with Some ni => ni_ns ni | None => None end) (tt_frames t), map fst (tt_ns t), map snd (tt_ns t), tt_ns_name t,
+   (map fu_file (tt_funcs t), map fk_line (tt_frames t), map fk_col (tt_frames t), map (fun k => match fk_native k with Some ni => ni_depth ni | None => 0 end) (tt_frames t))).
 Definition otables_eqb (a b : otables) : bool :=
-  let '(s1, rl1, rn1, fn1, fr1, ff1, fa1, fs1, nl1, na1, nn1) := a in let '(s2, rl2, rn2, fn2, fr2, ff2, fa2, fs2, nl2, na2, nn2) := b in
+  let '(s1, rl1, rn1, fn1, fr1, ff1, fa1, fs1, nl1, na1, nn1, (fl1, ln1, cl1, dp1)) := a in
+  let '(s2, rl2, rn2, fn2, fr2, ff2, fa2, fs2, nl2, na2, nn2, (fl2, ln2, cl2, dp2)) := b in
   listN_eqb s1 s2 && listnat_eqb rl1 rl2 && listnat_eqb rn1 rn2 && listnat_eqb fn1 fn2 && liston_eqb fr1 fr2 && listnat_eqb ff1 ff2 && listoN_eqb fa1 fa2 &&
-  liston_eqb fs1 fs2 && listnat_eqb nl1 nl2 && listN_eqb na1 na2 && listnat_eqb nn1 nn2.
+  liston_eqb fs1 fs2 && listnat_eqb nl1 nl2 && listN_eqb na1 na2 && listnat_eqb nn1 nn2 &&
+  liston_eqb fl1 fl2 && listoN_eqb ln1 ln2 && listoN_eqb cl1 cl2 && listN_eqb dp1 dp2.
 
 (* markers of thread h as the model stores and serializes them: every registration, and this thread's add_marker calls *)
 Definition model_markers (mops : list (option nat * N * mop)) (h : nat) : option (list (N * list N)) :=
